@@ -18,7 +18,7 @@ def main():
     only = sys.argv[1:]
     if not os.path.isdir(WT):
         subprocess.check_call(['git', '-C', '/repo', 'worktree', 'add', '-q', '--detach', WT, 'HEAD'])
-    inc = os.path.join(VERIF, 'seeded', '_incoming')
+    inc = os.path.join(VERIF, 'seeded', os.environ.get('SEEDED_INC', '_incoming'))
     for P in sorted(os.listdir(inc)):
         if only and P not in only:
             continue
